@@ -14,7 +14,11 @@ Leg B: harness/text/codec_drv.cpp calls util::escape (3 overloads), urlencode (3
        booster::locale::format; judged on the concatenation); every (begin,end) entry point on sub-ranges of larger
        buffers with adversarial neighbouring bytes and on ranges ending / starting at an inaccessible page, judged by the
        range content alone and required to equal the std::string form on a copy of the range (RangeLocal; an access
-       outside the range next to the inaccessible page becomes a Died event); and the text / textarea widgets' rendering; every call is an event
+       outside the range next to the inaccessible page becomes a Died event); every form widget (text, password, hidden,
+       textarea, numeric, checkbox, email, regex_field, file, submit, select / select_multiple / radio through all add()
+       overloads) rendered in html / xhtml x as_p / as_table / as_ul / as_dl / as_space with a placeholder and with every
+       string of length <= 2 over < > & " ' plus injection strings in each escaped slot: rendering = Template[placeholder := X],
+       X an acceptable escaping (mechanism layer X = Escape(s)); id(), name(), attributes_string() are raw by design; and the text / textarea widgets' rendering; every call is an event
        judged by CodecTrace.tla: property layer = the statement's predicates, mechanism layer (Strict)
        = output equals the TLA+ function (MODEL-DRIFT only).
 """
@@ -107,6 +111,8 @@ def run(ctx):
             return explain_call(e, x["path"])
         if k == "Range":
             return explain_range(e, x["path"], first)
+        if k == "Widget":
+            return explain_widget(e, x["path"], first)
         if k == "Died":
             return ctx.violation("died:%s:%s:%s" % (e["fn"], e["ctx"].split(",")[0], hexs(e["in"])[:16]),
                                  "%s on the range %s placed at %s touched memory outside the range (signal %s)" % (e["fn"], hexs(e["in"])[:80], e["ctx"], e["sig"]), x["path"])
@@ -139,6 +145,25 @@ def run(ctx):
         if first:
             return explain_call(e, path)
         ctx.violation("range:%s" % hexs(e["in"])[:16], "range event rejected: %s" % json.dumps(e)[:200], path)
+
+    def explain_widget(e, path, first):
+        """a rejected Widget event: name the string(s) whose rendering TLC does not accept (one Explain run)"""
+        where = "%s %s [%s %s%s]" % (e["w"], e["slot"], e["html"], e["list"], " id" if e["id"] else "")
+        bad = None
+        if first:
+            f = os.path.join(ctx.work, "codec-widget-%d-%d.ndjson" % (threading.get_ident(), len(explained)))
+            with open(f, "w") as fh:
+                for c in e["cases"]:
+                    fh.write('{"e":"Reset","kind":"explain"}\n' + json.dumps(dict(e, cases=[c]), separators=(",", ":")) + "\n")
+            bad = explain_run(f)
+        if not bad:
+            return ctx.violation("widget:%s:%s" % (e["w"], e["slot"]), "rendering of %s rejected" % where, path)
+        c = e["cases"][bad[0] // 2 - 1]
+        tmpl = bytes(e["tmpl"]).decode("latin1")
+        ctx.violation("widget:%s:%s:%s" % (e["w"], e["slot"], hexs(c["in"])[:24]),
+                      "%s with the string %r renders %r; the template is %r with the placeholder %s standing for the escaped string "
+                      "(%d of %d strings rejected)" % (where, bytes(c["in"]).decode("latin1"), bytes(c["out"]).decode("latin1")[:300], tmpl[:300],
+                                                       bytes(e["ph"]).decode(), len(bad), len(e["cases"])), path)
 
     def explain_call(e, path):
         f = os.path.join(ctx.work, "codec-one-%d-%d.ndjson" % (threading.get_ident(), len(explained)))
@@ -176,6 +201,10 @@ def run(ctx):
     nrg = 1 if q else 6
     for i in range(nrg):
         specs.append(("ranges-%d" % i, ["ranges", i, nrg], {}))
+    # form widget rendering: every escaped slot of every widget against Template[placeholder := Escape(s)]
+    nwd = 4 if q else 6
+    for i in range(nwd):
+        specs.append(("widgets-%d" % i, ["widgets", i, nwd], {"max_rejects": 4}))
     nrow = 4 if q else 8
     for i in range(nrow):
         specs.append(("rows-%d" % i, ["rows", 257 * i // nrow, 257 * (i + 1) // nrow, "all"], {}))
@@ -228,6 +257,10 @@ def note(ctx, f, tag):
                     n += len(g["fns"])
                     for fn in g["fns"]:
                         ctx.seen((mode, fn, g["sink"], g["fail"], min(len(e["in"]).bit_length(), 12)))
+            elif ln.startswith('{"e":"Widget"'):
+                n += ln.count('"in":')
+                i = ln.find('"ph"')
+                ctx.seen((mode, ln[:i]))
             elif ln.startswith('{"e":"Row"'):
                 n += 256 * (10 if '"all":true' in ln[:200] else 3)
                 ctx.seen((mode, "Row", ln[:60].count(",")))
